@@ -66,10 +66,7 @@ func vRR() RR {
 			p := vBytes(1 + i)
 			h.ALPN = append(h.ALPN, string(p))
 		}
-		if vTier() > 0 {
-			h.IPv4Hint = vIPs(vInt(0, 1), 4)
-			h.IPv6Hint = vIPs(vInt(0, 1), 16)
-		} else if vBool() {
+		if vBool() {
 			h.IPv4Hint = vIPs(1, 4)
 			h.IPv6Hint = vIPs(1, 16)
 		}
